@@ -10,8 +10,21 @@ Directives in a template (verus/*.verus.rs):
         -> the fn signature copied verbatim from the source with a named return binder `-> (ret: T)`
            spliced in, then the spec clauses, then the body `{ .. }` byte-identical to the source.
 
-What the extraction drops or changes, exactly: doc comments and attributes above the item; the return type
-is wrapped as `-> (binder: T)`.  Nothing inside a body is edited.  SHA-256 of each body is reported.
+  //@STRUCT ... derive=Clone,Copy
+        -> additionally re-emits `#[derive(Clone, Copy)]`, after checking that the derive attribute of the
+           item in the source lists every one of these traits.
+  inside a //@FN block:
+      //@LOOP n=<k> [binder=<ident>]
+          invariant ... / decreases ...       (verbatim from the template)
+      //@ENDLOOP
+        -> loop annotations for the k-th `for` / `while` loop of the body (textual order): the clauses are
+           inserted between the loop header and its `{`, and for a `for` loop the ghost iterator binder
+           `<ident>: ` is inserted after ` in `.  These are pure annotations (add-only); the extractor checks
+           that deleting the inserted text gives back the source body byte for byte.
+
+What the extraction drops or changes, exactly: doc comments and attributes above the item (except a re-emitted
+derive, see above); the return type is wrapped as `-> (binder: T)`; loop annotations as described.  No token of a
+body is edited or removed.  SHA-256 of each source body is reported.
 """
 import hashlib
 import json
@@ -47,13 +60,75 @@ def extract_struct(src, name):
     masked = rsrc.mask(src)
     m = re.search(r"^[ \t]*pub struct %s\b[^;{]*\{" % re.escape(name), masked, flags=re.M)
     if not m:
-        m2 = re.search(r"^[ \t]*pub struct %s\b[^;{]*;" % re.escape(name), masked, flags=re.M)
+        m2 = re.search(r"^[ \t]*pub struct %s\b" % re.escape(name), masked, flags=re.M)
         if not m2:
             raise rsrc.AnchorError(f"struct {name} not found")
-        return src[m2.start():m2.end()]
+        # tuple / unit struct: up to the `;` outside any bracket
+        depth, k = 0, m2.end()
+        while k < len(masked):
+            ch = masked[k]
+            if ch in "([<":
+                depth += 1
+            elif ch in ")]>":
+                depth -= 1
+            elif ch == ";" and depth == 0:
+                return src[m2.start():k + 1]
+            k += 1
+        raise rsrc.AnchorError(f"struct {name}: no terminating `;`")
     ob = masked.find("{", m.start())
     cb = rsrc.match_brace(masked, ob)
     return src[m.start():cb + 1]
+
+
+def struct_derives(src, name):
+    """Traits listed in the #[derive(..)] attributes directly above `pub struct <name>`."""
+    m = re.search(r"((?:^[ \t]*#\[[^\n]*\]\s*\n)+)[ \t]*pub struct %s\b" % re.escape(name), src, flags=re.M)
+    if not m:
+        return []
+    out = []
+    for dm in re.finditer(r"#\[derive\(([^)]*)\)\]", m.group(1)):
+        out += [t.strip() for t in dm.group(1).split(",") if t.strip()]
+    return out
+
+
+def splice_loops(body, loops):
+    """Insert loop annotations (add-only).  loops: list of dict(n, binder, clauses[])."""
+    if not loops:
+        return body
+    masked = rsrc.mask(body)
+    heads = [m for m in re.finditer(r"\b(for|while)\b", masked)]
+    # keep keyword occurrences that start a loop statement (not `for<'a>` bounds, not `impl X for Y`)
+    heads = [m for m in heads if not re.match(r"for\s*<", masked[m.start():])]
+    inserts = []
+    for lp in loops:
+        k = int(lp["n"])
+        if k < 1 or k > len(heads):
+            raise rsrc.AnchorError(f"loop {k} not found (body has {len(heads)} loops)")
+        h = heads[k - 1]
+        ob = masked.find("{", h.end())
+        if ob < 0:
+            raise rsrc.AnchorError(f"loop {k}: no body")
+        if h.group(1) == "for" and lp.get("binder"):
+            mi = re.search(r"\bin\s+", masked[h.end():ob])
+            if not mi:
+                raise rsrc.AnchorError(f"loop {k}: `in` not found")
+            inserts.append((h.end() + mi.end(), lp["binder"] + ": "))
+        indent = re.search(r"[ \t]*$", body[:h.start()]).group(0)
+        text = "\n" + "\n".join(indent + "    " + c.strip() for c in lp["clauses"] if c.strip()) + "\n" + indent
+        # the clauses go right before the `{` (replacing nothing: the blank before `{` is kept in front)
+        inserts.append((ob, text))
+    inserts.sort()
+    pieces, last = [], 0
+    for pos, text in inserts:
+        pieces.append(body[last:pos])
+        pieces.append(text)
+        last = pos
+    pieces.append(body[last:])
+    new = "".join(pieces)
+    # add-only check: dropping the inserted pieces (odd positions) gives back the source body byte for byte
+    if "".join(pieces[0::2]) != body:
+        raise rsrc.AnchorError("loop splice is not add-only")
+    return new
 
 
 def render(template_path, repo):
@@ -66,14 +141,31 @@ def render(template_path, repo):
         if ln.strip().startswith("//@STRUCT"):
             _, d = _kv(ln)
             src = open(os.path.join(repo, d["file"])).read()
+            if d.get("derive"):
+                want = [t.strip() for t in d["derive"].split(",") if t.strip()]
+                have = struct_derives(src, d["name"])
+                missing = [t for t in want if t not in have]
+                if missing:
+                    raise rsrc.AnchorError(f"struct {d['name']} no longer derives {missing}")
+                out.append("#[derive(%s)]" % ", ".join(want))
             out.append(extract_struct(src, d["name"]))
             i += 1
         elif ln.strip().startswith("//@FN"):
             _, d = _kv(ln)
-            spec = []
+            spec, loops, cur = [], [], None
             i += 1
-            while not lines[i].strip().startswith("//@END"):
-                spec.append(lines[i])
+            while lines[i].strip() != "//@END":
+                st = lines[i].strip()
+                if st.startswith("//@LOOP"):
+                    _, ld = _kv(lines[i])
+                    cur = dict(n=ld["n"], binder=ld.get("binder"), clauses=[])
+                elif st.startswith("//@ENDLOOP"):
+                    loops.append(cur)
+                    cur = None
+                elif cur is not None:
+                    cur["clauses"].append(lines[i])
+                else:
+                    spec.append(lines[i])
                 i += 1
             i += 1
             src = open(os.path.join(repo, d["file"])).read()
@@ -88,12 +180,13 @@ def render(template_path, repo):
             start_line = len("\n".join(out).split("\n")) + 1
             out.append(sig)
             out += spec
-            out.append("    " + body)
+            out.append("    " + splice_loops(body, loops))
             end_line = len("\n".join(out).split("\n"))
             fns.append(dict(name=d["name"], fn=d["fn"], file=d["file"], impl=d.get("impl"),
                             body_sha256=hashlib.sha256(body.encode()).hexdigest(),
                             line_lo=start_line, line_hi=end_line,
-                            spec=[s.strip() for s in spec if s.strip()]))
+                            spec=[s.strip() for s in spec if s.strip()],
+                            loop_annotations=[dict(n=l_["n"], binder=l_["binder"], clauses=[c.strip() for c in l_["clauses"] if c.strip()]) for l_ in loops]))
         else:
             out.append(ln)
             i += 1
@@ -136,8 +229,10 @@ def run_unit(work, v):
         except Exception:
             pass
     plain_errors = re.findall(r"^error[^\n]*\n(?:[^\n]*\n){0,12}", text_out, flags=re.M)
-    rep["trusted"] = [f"verus assume_specification/external in {v['template']}: {s}" for s in
-                      re.findall(r"assume_specification\[([^\]]+)\]", text)]
+    rep["trusted"] = [f"verus assume_specification in {v['template']}: {s.strip()}" for s in
+                      re.findall(r"assume_specification(?:<[^>]*>)?\s*\[([^\]]+)\]", text)]
+    rep["trusted"] += [f"verus external_body (assumed contract, body not verified) in {v['template']}: {s.strip()}" for s in
+                       re.findall(r"#\[verifier::external_body\]\s*(?:#\[[^\n]*\]\s*)*([^\n{;]+)", text)]
     if enc or (n_ver == 0 and n_err == 0):
         rep["reason"] = "unsupported-construct or spec does not type-check: " + text_out[-1500:]
         return rep
